@@ -975,6 +975,10 @@ type mutateCase struct {
 	} `json:"mutation"`
 	Backlog []string `json:"backlog_routes"` // routes that have a queued message in the store
 	Probes  probeSet `json:"probes"`
+	// StagedFile, when set, is written over the config file after start-up WITHOUT a reload: the operator staged an edit that
+	// differs from the running configuration (e.g. a restart-only change whose reload was refused).  "The file as it was" then
+	// means this content.
+	StagedFile string `json:"staged_file"`
 }
 
 type mutateRes struct {
@@ -1031,6 +1035,11 @@ func reloadMutate(inb []byte) (any, error) {
 		}
 		fp0 := fingerprint(st, running, c.Probes, clk)
 		setEnv(nil, c.EnvUnset)
+		onDisk := c.Config
+		if c.StagedFile != "" {
+			onDisk = c.StagedFile
+			_ = os.WriteFile(cfgPath, []byte(onDisk), 0o640)
+		}
 		m := app.VerifMutation{Kind: c.Mutation.Kind, Application: c.Mutation.Application, EndpointName: c.Mutation.EndpointName,
 			Route: c.Mutation.Route, SetIngressListen: c.Mutation.SetIngressListen, BreakRoute: c.Mutation.BreakRoute,
 			PostWriteFail: c.Mutation.PostWriteFail}
@@ -1038,12 +1047,12 @@ func reloadMutate(inb []byte) (any, error) {
 			res.MidSeen = true
 			b, _ := os.ReadFile(cfgPath)
 			res.MidCompiles = configCompiles(b)
-			res.MidSame = string(b) == c.Config
+			res.MidSame = string(b) == onDisk
 		}
 		mo, updated := app.VerifMutateManaged(cfgPath, running, st, store, m)
 		res.Err, res.Applied, res.Action = mo.Err, mo.Applied, mo.Action
 		after, _ := os.ReadFile(cfgPath)
-		res.FileSame = string(after) == c.Config
+		res.FileSame = string(after) == onDisk
 		res.FileCompiles = configCompiles(after)
 		if !res.FileSame {
 			res.FileAfter = string(after)
